@@ -50,7 +50,11 @@ def _p(vals, key):
     if key == "wholearray2x2" and not hasattr(vals["P"], "shape"):
         return dict(vals, P=[[vals["P"][0][0], vals["P"][0][1]], [5.0, 6.0]])
     return vals
-EVENTS = ["dumps", "read", "graph", "mutgraph", "other", "badcall", "badmatch", "call1", "call2", "call1b", "call1n", "mutcaller", "dumpsI0", "graphI0", "graphI1", "match0", "match1",
+# a second template ("pattern") per tdm program with a parameter where the program names a p-array: matching it against an
+# instance returns that instance's array under the parameter's name (a view of the MATCHED program, as the result says);
+# the caller then edits what it was given
+PATTERNS = {"tdm": H + "type tdm (temporal_modes=2)\n\nG({x}, {a}) | 0\nH({y}) | 1\n", "tdm-template": H + "type tdm (temporal_modes=3)\n\nG({x}, {a}) | 0\n"}
+EVENTS = ["dumps", "read", "graph", "mutgraph", "other", "badcall", "badmatch", "call1", "call2", "call1b", "call1n", "mutcaller", "dumpsI0", "graphI0", "graphI1", "match0", "match1", "patmatch0", "patmatch1",
           "mut0:arg", "mut0:list", "mut0:arr", "mut0:opt", "mut0:op", "mut0:gate", "mut0:var", "mut0:modes", "mut0:rrt", "mut1:arg", "mut1:arr"]
 MAXINST = 3
 
@@ -103,6 +107,8 @@ def enabled(ev, ninst, is_template, key=None):
         return False
     if ev in ("call1n", "mutcaller") and key not in ARRAY_PROGS:
         return False
+    if ev.startswith("patmatch"):
+        return key in PATTERNS and int(ev[8:]) < ninst
     if ev.startswith("call"):
         return is_template and ninst < MAXINST
     for tag in ("I0", "h0", "t0:", "I1", "h1", "t1:"):
@@ -182,6 +188,19 @@ def apply_event(T, inst, ev, key=None, caller=None):
         common.dumps(inst[int(ev[6:])])
     elif ev.startswith("graphI"):
         to_DiGraph(inst[int(ev[6:])])
+    elif ev.startswith("patmatch"):
+        k = int(ev[8:])
+        st_, PAT = common.loads(PATTERNS[key])
+        res = {}
+        if st_ == "ok":
+            try:
+                res = match_template(PAT, inst[k])
+            except Exception:  # noqa
+                res = {}
+        for v in (res or {}).values():
+            if isinstance(v, np.ndarray) and v.size:
+                v.flat[0] = -55           # the result is the caller's: what it shows of the matched program may follow, nothing else
+        return k
     elif ev.startswith("match"):
         try:
             match_template(T, inst[int(ev[5:])])
